@@ -24,6 +24,7 @@ structure LraExt (s' : Sat) (t t' : Lra) : Prop where
   aw : ∀ x, ∀ b ∈ t'.aWatches.getD x [], b < s'.vals.length
   awok : Lra.AWatchOK t'
   good : Lra.GoodState t'
+  sa : ∀ e ∈ t'.sAsrts, e.2.var < s'.vals.length
 
 theorem NetInv.lraExt {n : Net} {orig L : Cnf} {fr : List Frame} (h : NetInv n orig L fr) (hroot : n.sat.trailLim = [])
     {s' : Sat} {t' : Lra} (bd : List (Nat × Th)) (hs : SInv (orig ++ L) orig s') (hle : Dl.SatLe n.sat s')
@@ -32,7 +33,7 @@ theorem NetInv.lraExt {n : Net} {orig L : Cnf} {fr : List Frame} (h : NetInv n o
       ∀ α, TModel { n with sat := s', lra := t', bound := bd } α → TModel n α := by
   have hfr := h.root_frames hroot
   subst hfr
-  have hb : ThBase orig n.sat n.lra n.idl n.rdl := h.th
+  have hb : ThBase (orig ++ L) n.sat n.lra n.idl n.rdl := h.th
   obtain ⟨ex, hex, hkey⟩ := hx.asr
   have hmono : ∀ α, TModel { n with sat := s', lra := t', bound := bd } α → TModel n α := by
     intro α ⟨σr, σi, σz, σq, a, b, c, d⟩
@@ -74,12 +75,12 @@ theorem NetInv.lraExt {n : Net} {orig L : Cnf} {fr : List Frame} (h : NetInv n o
       unfold Lra.lbReason Lra.ubReason Lra.bnd at this ⊢
       rw [hx.bnd]; exact this
   · exact ⟨hx.reg, fun c hc => Nat.lt_of_lt_of_le (h.reg.idl c hc) hlen,
-      fun c hc => Nat.lt_of_lt_of_le (h.reg.rdl c hc) hlen, hx.good, hx.aw⟩
+      fun c hc => Nat.lt_of_lt_of_le (h.reg.rdl c hc) hlen, hx.good, hx.aw, hx.sa⟩
 
 /-- only `exprs` changes -/
 theorem LraExt.exprs {n : Net} {orig L : Cnf} {fr : List Frame} (h : NetInv n orig L fr) (ex : List (String × Nat))
     (hg : Lra.GoodState { n.lra with exprs := ex }) : LraExt n.sat n.lra { n.lra with exprs := ex } :=
-  ⟨rfl, rfl, rfl, ⟨[], by simp, fun e he => by cases he⟩, h.reg.lra, h.reg.aw, h.th.base.lra.inv.awatch, hg⟩
+  ⟨rfl, rfl, rfl, ⟨[], by simp, fun e he => by cases he⟩, h.reg.lra, h.reg.aw, h.th.base.lra.inv.awatch, hg, h.reg.sa⟩
 
 theorem mkSlack_vals_length (t : Lra) (expr : Lin) (ex : List (String × Nat)) :
     (Lra.mkSlack t expr ex).vals.length = t.vals.length + 1 := by
@@ -112,7 +113,14 @@ theorem LraExt.relReg {n : Net} {orig L : Cnf} {fr : List Frame} (h : NetInv n o
     | none =>
       have : (n.sat.nvars == b) = false := by simpa using fun e => hb e.symm
       simp [List.find?, this]
-  refine ⟨rfl, rfl, rfl, ⟨[(n.sat.nvars, ⟨if up then .leq else .geq, ⟨n.sat.nvars, true⟩, slack, c⟩)], rfl, ?_⟩, ?_, ?_, ?_, hg⟩
+  refine ⟨rfl, rfl, rfl, ⟨[(n.sat.nvars, ⟨if up then .leq else .geq, ⟨n.sat.nvars, true⟩, slack, c⟩)], rfl, ?_⟩, ?_, ?_, ?_, hg, ?_⟩
+  rotate_right
+  · intro e he
+    rw [hN]
+    have he' : e ∈ Lra.emplaceKey n.lra.sAsrts (Lra.relKey up slack c) ⟨n.sat.nvars, true⟩ := he
+    rcases Lra.mem_emplaceKey he' with he' | he'
+    · exact Nat.lt_succ_of_lt (h.reg.sa e he')
+    · rw [he']; exact Nat.lt_succ_self _
   · intro e he
     rw [List.mem_singleton.1 he]
   · intro e he
